@@ -152,7 +152,7 @@ class ModelFS:
         # so code that relies on a sorted listing without sorting is exposed
         return sorted(names, reverse=True)
 
-    def open(self, p, mode="r", **kw):
+    def open(self, p, mode="r", buffering=-1, **kw):
         self._tick("open:" + mode, p)
         if "b" not in mode:
             raise OutsideModel(f"text-mode open({mode!r}) on the model file system")
@@ -179,6 +179,7 @@ class ModelFS:
             raise OutsideModel(f"open mode {mode}")
         f = ModelFile(self, p, "a" if kind == "a" else "w")
         f._at_open = self.files.get(p)
+        f.unbuffered = (buffering == 0)
         self.open_writers.append(f)
         return f
 
@@ -270,13 +271,26 @@ class ModelFile:
             return out.concrete()
         return SBytes(out)
 
+    unbuffered = False
+
     def write(self, b):
-        self.fs._tick("write", self.path)
+        short = False
+        try:
+            self.fs._tick("write", self.path)
+        except OSError as exc:
+            # a raw (unbuffered) file hands the request to the kernel as is: when the space runs out in the middle of it,
+            # write(2) stores what fits and *returns the short count*; only the next call fails.  Buffered files
+            # retry the remainder themselves and so surface the error.
+            if not (self.unbuffered and exc.errno in (_errno.ENOSPC, _errno.EDQUOT, _errno.EFBIG) and len(b) > 1):
+                raise
+            short = True
         if self.mode == "r":
             raise OSError(_errno.EBADF, "not writable")
         if isinstance(b, GzBlob):
             raise OutsideModel("write of a gzip image")
         nb = SBytes(b) if not isinstance(b, SBytes) else b
+        if short:
+            nb = nb[:len(nb) // 2]
         d = self._data()
         if self.mode == "a":
             self.pos = len(d)
@@ -449,7 +463,8 @@ class Env:
                 if data is None:
                     raise OutsideModel("text-mode read of a file with symbolic contents")
                 return io.StringIO(data.decode("utf-8"), newline=kw.get("newline"))
-            return fs.open(p, mode)
+            buffering = a[0] if a else kw.get("buffering", -1)
+            return fs.open(p, mode, buffering=buffering)
         self.open = _open
 
         osp = types.SimpleNamespace(**{k: getattr(real_os.path, k) for k in ("join", "basename", "dirname", "splitext", "normpath", "sep")})
